@@ -18,7 +18,9 @@ func Map(v reflect.Value, f jtypes.Callable) (interface{}, error) {
 
 	var results []interface{}
 
-	argc := clamp(f.ParamCount(), 1, 3)
+	// The arguments (value, index, whole array) are trimmed to the
+	// function's arity; a function without parameters gets none.
+	argc := clamp(f.ParamCount(), 0, 3)
 
 	for i := 0; i < arrayLen(v); i++ {
 
@@ -43,7 +45,9 @@ func Filter(v reflect.Value, f jtypes.Callable) (interface{}, error) {
 
 	var results []interface{}
 
-	argc := clamp(f.ParamCount(), 1, 3)
+	// The arguments (value, index, whole array) are trimmed to the
+	// function's arity; a function without parameters gets none.
+	argc := clamp(f.ParamCount(), 0, 3)
 
 	for i := 0; i < arrayLen(v); i++ {
 
